@@ -86,6 +86,12 @@ pub fn c33_align_no_fill_vma(s: &mut Src) {
 pub fn c33_align_no_fill_vmb(s: &mut Src) {
     align_no_fill::<VmB>(s)
 }
+pub fn c33_align_no_fill_vmd(s: &mut Src) {
+    align_no_fill::<VmD>(s)
+}
+pub fn c33_max_aligned_vmd(s: &mut Src) {
+    max_aligned::<VmD>(s)
+}
 pub fn c33_align_no_fill_vmc(s: &mut Src) {
     align_no_fill::<VmC>(s)
 }
@@ -249,6 +255,8 @@ harnesses! {
     #[kani::unwind(2)] c33_align_no_fill_vma;
     #[kani::unwind(2)] c33_align_no_fill_vmb;
     #[kani::unwind(2)] c33_align_no_fill_vmc;
+    #[kani::unwind(2)] c33_align_no_fill_vmd; // tier=thorough
+    #[kani::unwind(2)] c33_max_aligned_vmd; // tier=thorough
     #[kani::unwind(194)] c33_align_fill_vmb;
     #[kani::unwind(68)] c33_fill_gap_vmb;
     #[kani::unwind(2)] c33_max_aligned_vma;
